@@ -169,26 +169,7 @@ PROPS["C12"] = dict(
 )
 # ---- C12 -- end ----
 
-# ---- C20, binary knowledge-base stream only -- begin ----
-PROPS["C20"] = dict(
-    proof_files=CODEC_FILES + ["props/C20.v"],
-    props_files=["props/C20.v"],
-    harness="C20BIN", corr_files=["model/CorrCodec.v"],
-    theorems=["C20_binary"],
-    trusted=CODEC_TRUST + ["mirror decoder of the harness (tools/harness/c20bin.go walkStream), compared with Catalog.ReadCatalogFromReader (acceptance) "
-                           "and with the model (acceptance, requested bytes) on every generated input"],
-    assumptions=[
-        "binary stream loader only; GRL text, JSON rule text and JSON fact text are not covered by this check",
-        "memory = bytes the stream makes the reader request (model: fixed buffers, min(announced, remaining) per byte block read through the growing buffer, 16 per appended "
-        "string) and TotalAlloc delta (implementation); the growth policy of bytes.Buffer / append, the nodes built per meta, resident memory, time and the Go runtime are not modelled",
-        "termination of the modelled decoder is by construction (total Coq function); the implementation is run under a 5 s timeout",
-    ],
-    explanation="The allocation clause is proved for every byte string, decodable or not: alloc_decode bs <= 3*length bs + 8 for the account of the repaired reader "
-                "(engine commit 2f18ef4; no make takes its size from the stream - anchored to the source); a fixed corpus of hostile length prefixes (formerly D18) "
-                "and generated byte strings (random, structure-aware mutants of valid streams) are loaded by the real loader in a child process under ulimit -v with a "
-                "timeout (outcome class, TotalAlloc bound) and decoded by the model (acceptance, requested bytes).",
-)
-# ---- C20 -- end ----
+# ---- C20: see the block after C17 / C18 (it uses PARSER_FILES / PARSER_TRUST) ----
 
 # ---- C17 / C18: GRL acceptance and the JSON translator (parser model) ----
 PARSER_TRUST = COMMON_TRUST + [
@@ -230,7 +211,8 @@ PROPS["C18"] = dict(
         "from-scratch evaluator coq/model/Fresh.v and the harness fact library twin Methods.v (shared with C01/C05)",
     ],
     assumptions=[
-        "ASCII input; JSON numbers in the model are integers below 2^53 in magnitude (fmt.Sprint / FormatFloat print their digits); other numbers are exercised on the implementation only",
+        "ASCII input; JSON numbers in the model are integers: below 2^53 in magnitude as the value of {\"const\": n} (FormatFloat 'f' prints their digits), below 10^6 as plain operands / call arguments "
+        "(fmt.Sprint(float64) switches to exponent notation at 10^6 and prints -0 for negative zero: the harness keeps such operands out of the model comparison); other numbers are exercised on the implementation only",
         "theorem C18 quantifies over the typed JSON rules satisfying the decidable predicate wf_trule, which demands only: the shape every accepted rule has (identifier name, "
         "non-empty action list, 'when' an operator object or a plain string, join operators with two or more operands, 'not' with one or more, and/or over two or more objects - the "
         "translator or the builder reject anything else: C18_malformed, C17_reject); plain strings spelled canonically (operand = text of a well-formed atom, condition = of a "
@@ -325,6 +307,46 @@ PROPS["C09"] = dict(
                 "race detector as supporting evidence.",
 )
 # ---- C09 -- end ----
+
+# ---- C20 (all four loaders) -- begin ----
+PROPS["C20"] = dict(
+    proof_files=CODEC_FILES + PARSER_FILES + ["model/JsonRule.v", "proofs/LoaderProofs.v", "props/C20.v"],
+    props_files=["props/C20.v"],
+    harness="C20", corr_files=["model/CorrCodec.v", "model/CorrParse.v", "model/CorrJson.v"],
+    harness_timeout=3000,
+    theorems=["C20_binary", "C20_grl_model", "C20_grl_stored_text_refuted", "C20_jsonrule_model", "C20_jsonfact_model"],
+    trusted=CODEC_TRUST + PARSER_TRUST[len(COMMON_TRUST):] + [
+        "translator model coq/model/JsonRule.v (hand-written from pkg/JsonResource.go; compared with ParseJSONRule on the generated objects inside its domain)",
+        "mirror decoder of the harness (tools/harness/c20bin.go walkStream), compared with Catalog.ReadCatalogFromReader (acceptance) "
+        "and with the model (acceptance, requested bytes) on every generated input",
+        "sandbox of the harness (tools/harness/c20sandbox.go): child process under ulimit -v, wall-clock timeout, runtime.MemStats.TotalAlloc and getrusage CPU time around the load",
+        "static region predicates of the harness (c20gen.go: more than 48 lexical elements for the GRL / JSON-rule loaders, bracket depth above 64 for the translation stage) - "
+        "they only decide where the linear bounds are evaluated; the class oracle (no panic / kill / timeout) applies to every loaded input",
+    ],
+    assumptions=[
+        "the theorems are about the loader MODELS: Lexer.v / Parser.v (GRL text, ASCII), JsonRule.v translate (JSON rule, over the decoded value, integer numbers), the small value-tree model of "
+        "JSON facts in LoaderProofs.v, Codec.v decode / alloc_decode (binary stream). The generated ANTLR lexer / parser and its runtime, encoding/json, the Go runtime, time and resident "
+        "memory are NOT modelled: they are covered only by the sandboxed fuzz / differential runs (supporting evidence, not proof)",
+        "model-side 'memory' is a count: tokens and tree nodes (GRL), characters of the translated text (JSON rules), nodes of the fact tree (JSON facts), bytes the stream makes the reader "
+        "request (binary: fixed buffers, min(announced, remaining) per byte block, 16 per appended string); implementation-side memory is the TotalAlloc delta of the load in a child process, "
+        "time is its CPU time (getrusage) with a wall-clock timeout as hang detector; the growth policy of bytes.Buffer / append and the nodes built per meta are not modelled",
+        "termination of the models is by construction (total Coq functions); the lexer fuel and the parser's nesting fuel are proved never to run out; the translator has no fuel",
+        "the linear bounds are REFUTED for GRL text (and JSON rule text, which is built through it), two open known findings with witnesses replayed on every run: D23 (GRL builder super-linear in "
+        "time and memory: cubic in nesting depth, quadratic in the number of siblings; also refuted on the model for the text stored per node), D24 (ANTLR recursion overflows the goroutine stack "
+        "from about 250 000 nested negations on: process abort). Inside region D23 (more than 48 lexical elements) only the class oracle and a cubic envelope are evaluated, inputs above 400 (quick) / 800 "
+        "(thorough) lexical elements are not loaded, and a timeout above 250 elements is reported under the D23 key",
+        "time-based verdicts (absolute CPU bound; growth exponent of the CPU time over a chain of at least two doublings above 1.7, where linear is 1 and quadratic 2) are reported only after a "
+        "re-measurement in a separate sandbox (smallest CPU time of all runs); allocation-based verdicts are deterministic",
+    ],
+    explanation="Theorems: the binary allocation clause holds for every byte string (C20_binary: alloc_decode bs <= 3*length bs + 8, repaired reader); the GRL lexer / parser / builder model never panics, "
+                "its two fuels never run out, tokens <= characters and tree nodes <= tokens (C20_grl_model), while the text the listener stores per node admits no linear bound "
+                "(C20_grl_stored_text_refuted, finding D23); the JSON rule translator model never panics, has no fuel and emits at most 16*size+64 characters (C20_jsonrule_model); the JSON fact tree "
+                "is size-preserving (C20_jsonfact_model). Harness: for each of the four loaders (plus the translation stage of the JSON rule loader alone) a fixed battery of small edge cases, random "
+                "bytes, structure-aware mutants of generated valid inputs and 130 shape families (doubling series, depth probes 10..100 000) are loaded in sandboxed child processes; oracle: class in "
+                "{ok, error}, TotalAlloc <= A*len+B, CPU <= C*len+D, allocation ratio of a doubling <= 3, CPU growth exponent <= 1.7, outside the known-finding region; correspondence: the same GRL "
+                "texts through parse_grl / build (verdict + snapshots), JSON rule objects through translate (text), binary streams through decode / alloc_decode (c20bin.go, incl. the corpus of hostile length prefixes).",
+)
+# ---- C20 -- end ----
 
 NOT_APPLICABLE = {}
 
@@ -430,6 +452,24 @@ MANIFEST_TEXT = {
         technique="Rocq/Coq proof: invariants of an executable library state machine by induction over operation histories + history correspondence (vm_compute) + shadow-map oracle",
     ),
     # ---- C16 -- end ----
+    # ---- C20 -- begin ----
+    "C20": dict(
+        text="Machine-checked proof (Coq 8.16.1) over executable models of the four loaders. GRL text: the lexer / parser / builder model is total, never panics, its lexer fuel and nesting fuel "
+             "are proved never to run out, the token count is at most the input length and the syntax tree has at most as many nodes as tokens. JSON rule text: the translator model (over the "
+             "decoded value) is structurally recursive for every nesting depth, never panics and emits at most 16*size+64 characters. JSON fact text: the value tree is size-preserving. Binary "
+             "stream: the allocation account of the repaired reader is at most 3x the length + 8 for EVERY byte string. "
+             "Refuted on the model: the text the GRL listener stores in every tree node admits no linear bound. Tied to the code by correspondence on generated inputs (verdict and rule snapshots "
+             "for GRL, translated text for JSON rules, acceptance and requested bytes for binary streams). SUPPORTING EVIDENCE, not proof: every load of generated inputs (edge-case battery, random "
+             "bytes, structure-aware mutants, doubling series and depth probes up to 100 000 / 1 000 000) runs in a sandboxed child process (ulimit -v, timeout) with an outcome-class, allocation, "
+             "CPU-time and scaling-ratio oracle.",
+        note="PARTIAL. The theorems cover the loader MODELS only (termination / totality, no Panic, linear token / tree / output / requested-bytes bounds, the refuted stored-text clause); the generated ANTLR parser and "
+             "its runtime, encoding/json, the Go runtime, time and resident memory are covered only by the sandboxed differential / fuzz runs. Open known findings replayed on every run: "
+             "D23 (GRL builder - and JSON rule loader on top of it - cubic in nesting depth, quadratic in siblings: a 3 KB condition does not load in 20 s), "
+             "D24 (264 KB of nested '!' abort the process with a stack overflow inside ANTLR's recursive descent). Trust: Coq kernel; hand-written models validated by correspondence; harness sandbox "
+             "and region predicates. ASCII; integer JSON numbers. No axioms (closed under the global context).",
+        technique="Rocq/Coq proof over executable loader models (fuel-sufficiency, size bounds, refutation witnesses) + differential correspondence (vm_compute) + sandboxed structure-aware fuzzing with allocation / scaling oracles",
+    ),
+    # ---- C20 -- end ----
     "C19": dict(
         text="Machine-checked proof (Coq 8.16.1) that the six comparison functions, as regenerated from pkg/reflectmath.go on every run, "
              "are mutually consistent (trichotomy, <=/>=/!= derived, mirrored under swap) and depend on denoted values only, for all "
